@@ -400,6 +400,9 @@ def c04(ctx):
         ctx.random_validate("data", 48, 60)
         ctx.random_validate("fragsweep", 16, 30)
         ctx.random_validate("lensweep", 16, 8)
+        # the session is re-keyed (a new key exchange inside it) between bursts of traffic: key ids start over,
+        # nothing of the replaced session's keys may be used again
+        ctx.random_validate("rekey", 32, 4)
         frag_model(ctx, sender=False)
     else:
         ctx.model("c04-v3-5x4", dict(DATA33, MaxSend=5, MaxFlight=4), inv)
@@ -410,6 +413,7 @@ def c04(ctx):
         ctx.random_validate("data", 400, 200)
         ctx.random_validate("fragsweep", 64, 120)
         ctx.random_validate("lensweep", 64, 16)
+        ctx.random_validate("rekey", 320, 8)
         frag_model(ctx, sender=False)
 
 
